@@ -8,6 +8,7 @@ from mc.core import viol
 
 ID = 'C13'
 LEVEL = 'model_checking'
+RECHECK = 10   # cases are whole schedule explorations: fewer of them are re-executed for the determinism check
 CHUNK = 4
 RULE = ('the real Equalizer on virtual multiprocessing / virtual time: every vector over {ok, worker exits, hangs, answers late, hangs '
         'trapping SIGTERM} up to the length bound (all positions: first, last, consecutive) x recycle rate {1,2,3} x timeout {0,1,3} virtual '
